@@ -8,7 +8,7 @@ MSG=$(head -1 "$F" | sed 's/^# *//')
 case "$MSG" in fix:*) ;; *) echo "no fix: line in $F"; exit 2;; esac
 cd /repo || exit 2
 patch -p1 --dry-run < "$F" >/dev/null || { echo "DOES NOT APPLY: $F"; exit 2; }
-patch -p1 < "$F" >/dev/null
+patch -p1 --no-backup-if-mismatch < "$F" >/dev/null
 if [ $# -gt 0 ]; then
   T=""; for t in "$@"; do T="$T tests/$t"; done
   env -u TRIMESH_VERIF /venv/bin/python -m pytest -q -p no:cacheprovider -n 6 --timeout=900 \
